@@ -74,6 +74,24 @@ def p1Step (p : P1) (ws : List String) : P1 × String :=
       if s.nEnacted + s.flushed ≤ m ∧ m ≤ s.nEnacted + s.logged.length then
         ({ p with st := crashRecover s 0 (m - s.nEnacted) }, "ok")
       else (p, s!"err:crash-prefix-not-allowed lo={s.nEnacted + s.flushed} hi={s.nEnacted + s.logged.length}")
+  | ["fail", j] =>
+    match j.toNat? with
+    | some j => ({ p with st := failStep p.st j }, "ok")
+    | none => (p, "bad-op")
+  | ["failreopen", m] =>
+    -- reopen after a stored error: every record that reached the log files is replayed.  The
+    -- record of a failing `process_commits` may or may not have reached the file completely.
+    match m.toNat? with
+    | none => (p, "bad-op")
+    | some m =>
+      let s := p.st
+      let hi := s.nEnacted + s.logged.length
+      if s.nEnacted + s.flushed ≤ m ∧ m ≤ hi then
+        ({ p with st := crashRecover s 0 (m - s.nEnacted) }, "ok")
+      else if m = hi + 1 ∧ !s.queue.isEmpty then
+        let s1 := process kind { s with bgErr := false }
+        ({ p with st := crashRecover s1 0 (m - s1.nEnacted) }, "ok")
+      else (p, s!"err:reopen-prefix-not-allowed lo={s.nEnacted + s.flushed} hi={hi}")
   | ["get", c, k] => (p, showOpt (get p.st (c ++ ":" ++ k)))
   | ["size", c, k] => (p, showOpt ((getSize tokLen p.st (c ++ ":" ++ k)).map toString))
   | ["stages"] => (p, s!"queue={p.st.queue.length} logged={p.st.logged.length} flushed={p.st.flushed} enacted={p.st.nEnacted} hist={p.st.hist.length}")
